@@ -422,7 +422,75 @@ pub fn gen_children(r: &mut Rng) -> Case {
     Case { clients: vec![c0], sched_seed: r.next(), crashes, spurious_pm: 0, max_polls: 4000, horizon_ms: 3000, svc: vec![] }
 }
 
+/// broker family: 1-3 publishing tasks, 1-4 subscribers, 1-2 topics; subscribe in started or
+/// later, re-subscribe, unsubscribe, termination of subscribers at arbitrary positions;
+/// publishing through Broker::publish, Addr<Broker>::publish and Context::publish
+pub fn gen_broker(r: &mut Rng) -> Case {
+    let nsub = 1 + r.below(4) as usize;
+    let ntopics = 1 + r.below(2) as u8;
+    let mut c0 = vec![];
+    for i in 0..nsub {
+        let mut s = Spec::default();
+        s.entry = if r.chance(500) { Entry::Spawn } else { Entry::Builder };
+        if s.entry == Entry::Builder && r.chance(350) {
+            s.bound = Some(r.below(3) as usize);
+        }
+        for t in 1..=ntopics {
+            if r.chance(650) {
+                s.started.push(Act::Subscribe(t));
+                if r.chance(150) {
+                    s.started.push(Act::Subscribe(t));
+                }
+            }
+        }
+        c0.push(Cop::Spawn { x: i, spec: s });
+        if r.chance(700) {
+            c0.push(Cop::Ping { h: i });
+        }
+    }
+    let nclients = 1 + r.below(3) as usize;
+    let mut clients = vec![];
+    let mut counter = 100u32;
+    for c in 0..nclients {
+        let mut prog = if c == 0 { std::mem::take(&mut c0) } else { vec![if r.chance(500) { Cop::Sleep(1) } else { Cop::Yield }] };
+        let n = 3 + r.below(8);
+        for _ in 0..n {
+            let h = r.below(nsub as u64) as usize;
+            let topic = 1 + r.below(ntopics as u64) as u8;
+            let cop = match r.below(100) {
+                0..=34 => {
+                    counter += 1;
+                    Cop::Publish { topic, v: counter, way: r.below(2) as u8 }
+                }
+                35..=42 => {
+                    counter += 1;
+                    Cop::Send { h, script: vec![Act::Publish(topic, counter)] }
+                }
+                43..=50 => Cop::Send { h, script: vec![Act::Subscribe(topic)] },
+                51..=58 => Cop::Unsubscribe { topic, h },
+                59..=63 => Cop::Stop { h },
+                64..=68 => Cop::Drop { h },
+                69..=74 => Cop::Send { h, script: vec![Act::Push(1), Act::Sleep(1 + r.below(10))] },
+                75..=80 => Cop::Ping { h },
+                81..=88 => Cop::Sleep(1 + r.below(10)),
+                _ => Cop::Yield,
+            };
+            prog.push(cop);
+        }
+        clients.push(prog);
+    }
+    let mut fin = vec![Cop::Sleep(80 + r.below(60))];
+    for x in 0..nsub {
+        fin.push(Cop::Drop { h: x });
+    }
+    clients.push(fin);
+    Case { clients, sched_seed: r.next(), crashes: vec![], spurious_pm: 0, max_polls: 4000, horizon_ms: 3000, svc: vec![] }
+}
+
 pub fn gen_case(family: &str, r: &mut Rng) -> Case {
+    if family == "broker" {
+        return gen_broker(r);
+    }
     if family == "children" {
         return gen_children(r);
     }
